@@ -90,10 +90,14 @@ class Path:
             return d
         return self._decide(cond)
 
-    MAX_DECISIONS = 600
+    MAX_DECISIONS = 80
 
     def _decide(self, cond):
         i = len(self.decisions)
+        self.__dict__["_asked"] = self.__dict__.get("_asked", 0) + 1
+        if self.__dict__["_asked"] > 20 * self.MAX_DECISIONS:
+            raise Concretization("more than %d conditions evaluated on one path: a loop whose exit depends on symbolic data and has no "
+                                 "invariant (only the outermost `while` of a filter is cut)" % (20 * self.MAX_DECISIONS))
         if i >= self.MAX_DECISIONS:
             raise Concretization("more than %d symbolic decisions on one path: a loop whose exit depends on symbolic data and has no "
                                  "invariant (only the outermost `while` of a filter is cut)" % self.MAX_DECISIONS)
